@@ -138,6 +138,32 @@ CLAIMED = {
         "are index-transformer contracts; one-hot Sigma elimination is performed by the generator.",
    technique="proxy execution of the real indexing code in an index-function domain; quantifier-free integer/UF VCs discharged by z3/cvc5",
    engine="IDX"),
+ "C01": dict(
+   category="proof",
+   text="Kernel level: _matmat / to_dense / __matmul__ (1-D and 2-D operands, both sides of the default to_dense switch) of Dense, Triangular, ScalarMul, "
+        "Identity, Product, Sum, Diagonal, Transpose, Adjoint, Permutation, generic operators, TriangularInv, LSTSQSolve, IterativeOperatorWInfo and to_dense "
+        "of Kronecker/KronSum/BlockDiag run as real code over abstract parts and must equal M(self) X / M(self) with the shape and promoted dtype of the dense "
+        "computation (ALG, all shapes); Tridiagonal, Concatenated on both axes, Permutation and Householder are verified entry by entry for all sizes (IDX); "
+        "every rule of the combinators keeps M(r) (any nesting depth = one contract use per node).",
+   design_ref="4.1",
+   note="The reshape/moveaxis kernels of Kronecker, KronSum, BlockDiag and the blocked Kernel operator are covered only by a bounded stand-in (real code on "
+        "exact symbolic payloads, all shapes up to dims<=2/3, <=3 factors, multiplicities<=3), labelled bounded and not counted as proved; Jacobian/Hessian/"
+        "FFT/Sparse reduce to backend primitives absent on NumPy (out of scope); exact arithmetic; the Identity/Permutation dtype clause is a listed known finding.",
+   technique="contract-stubbed proxy execution of kernel methods (ALG + index domain); bounded symbolic execution of the real code as stand-in for tensor kernels",
+   engine="ALG+IDX"),
+ "C18": dict(
+   category="proof",
+   text="Frame obligations for every in-place construct found in the real source of all cola modules (augmented assignments, subscript stores, "
+        "update_array, container mutators, attribute stores): the target must be a fresh local by an intraprocedural freshness analysis or state covered by a "
+        "sidecar modifies clause; the real WrapMeta.__call__ and tree_flatten/tree_unflatten are checked on every constructible kind (same kind, fields, "
+        "annotations, leaves = array parameters, input untouched); leaves must not depend on construction order (fresh interpreters, both orders); the attribute "
+        "registry must classify by value for every prior registry state (history quantifier as ghost pre-state).",
+   design_ref="4.18",
+   note="Modifies clauses of loop states and operator-owned state are assumed with a stated reason (listed in the evidence); the alias table of NumPy primitives "
+        "is trusted; per-kind enumerations are finite (one representative per kind and shape variant; the code is kind-generic); LAPACK determinism assumed; "
+        "the registry's history dependence is a listed known finding.",
+   technique="frame/ownership contracts decided by freshness analysis of the live source; finite enumeration of kinds and ghost registry pre-states",
+   engine="FRAME"),
 }
 
 NOT_YET = "check not built yet in this session (framework under construction; see DESIGN.md section 10 for the order of work)"
